@@ -127,6 +127,15 @@ def binary_fields(key, data):
         jlen = struct.unpack("<I", data[12:16])[0]
         if 20 + jlen + 8 <= len(data):
             out.append((20 + jlen, 4, "<"))
+    if ft in ("3mf", "zip", "zae"):
+        # zip container: sizes, name / extra lengths and offsets of the first local header, the first central
+        # directory entry and the end-of-central-directory record (zipfile trusts several of them)
+        for sig, offs in ((b"PK\x03\x04", ((18, 4), (22, 4), (26, 2), (28, 2))),
+                          (b"PK\x01\x02", ((20, 4), (24, 4), (28, 2), (30, 2), (32, 2), (42, 4))),
+                          (b"PK\x05\x06", ((8, 2), (10, 2), (12, 4), (16, 4), (20, 2)))):
+            i = data.find(sig)
+            if i >= 0:
+                out += [(i + o, w, "<") for o, w in offs if i + o + w <= len(data)]
     return out
 
 
@@ -548,3 +557,47 @@ def geometry_variants(tm):
                 data = data.encode("utf-8")
             if isinstance(data, (bytes, bytearray)) and len(data) > 0:
                 yield ft, bytes(data), how
+
+
+# ------------------------------------------------------------------ attribution of memory observations
+def memory_deviation(ft, data, bypath):
+    """Name of the known root cause a memory observation belongs to, decided from the input bytes alone
+    (None: unexplained).  Only used to attribute; an id that is not listed in known_findings.jsonl stays a violation.
+      StlFaceCountWraps             binary STL whose face count passes the length check only modulo 2^32
+      GlbChunkLengthTrusted         GLB loaded by path with a chunk length beyond the end of the file
+      GltfAccessorWithoutBufferView glTF accessor without bufferView whose count alone sizes an array > 16 MiB
+      ZipMemberSizeTrusted          zip container loaded by path, central directory compressed size beyond the archive
+    """
+    try:
+        if ft == "stl" and len(data) >= 84:
+            c = int.from_bytes(data[80:84], "little")
+            n = len(data) - 84
+            if c * 50 != n and (c * 50) % 2 ** 32 == n % 2 ** 32:
+                return "StlFaceCountWraps"
+        if ft == "glb" and len(data) >= 20 and data[:4] == b"glTF":
+            jlen = int.from_bytes(data[12:16], "little")
+            if bypath and jlen > len(data) - 20:
+                return "GlbChunkLengthTrusted"
+            off = 20 + jlen
+            if bypath and off + 8 <= len(data) and int.from_bytes(data[off:off + 4], "little") > len(data) - off - 8:
+                return "GlbChunkLengthTrusted"
+        if ft in ("glb", "gltf"):
+            js = data
+            if ft == "glb":
+                sp = glb_split(data)
+                js = sp[0] if sp else b""
+            tree = json.loads(js)
+            per = {"SCALAR": 1, "VEC2": 2, "VEC3": 3, "VEC4": 4, "MAT2": 4, "MAT3": 9, "MAT4": 16}
+            for a in tree.get("accessors", []):
+                if isinstance(a, dict) and "bufferView" not in a and isinstance(a.get("count"), int) \
+                        and a["count"] * per.get(a.get("type"), 1) > 2 ** 24:
+                    return "GltfAccessorWithoutBufferView"
+        if ft in ("zip", "3mf", "zae", "3dxml") and bypath:
+            i = data.find(b"PK\x01\x02")
+            while i >= 0:
+                if int.from_bytes(data[i + 20:i + 24], "little") > len(data):
+                    return "ZipMemberSizeTrusted"
+                i = data.find(b"PK\x01\x02", i + 4)
+    except Exception:
+        return None
+    return None
